@@ -21,14 +21,14 @@ type heapEff struct {
 }
 
 type loopEff struct {
-	callees map[string]bool
+	callees   map[string]bool
 	calleeFns map[string]*ssa.Function
-	proto   bool
-	cells   []*ssa.Alloc
-	ranges  []*ssa.Range
-	anyCall bool
-	allocs  bool
-	heap    []heapEff
+	proto     bool
+	cells     []*ssa.Alloc
+	ranges    []*ssa.Range
+	anyCall   bool
+	allocs    bool
+	heap      []heapEff
 }
 
 func rootAddr(v ssa.Value) (root ssa.Value, outer *ssa.FieldAddr, idx *ssa.IndexAddr) {
@@ -524,12 +524,12 @@ func (x *X) refOf(v SV, structT types.Type) Term {
 
 func (x *X) scanDyn(cc *ssa.CallCommon, eff *loopEff) {
 	sig := cc.Signature()
-	for _, pkg := range x.prog.AllPackages() {
+	for _, pkg := range sortedPkgs(x.prog) {
 		if pkg.Pkg == nil || !isModulePkg(pkg.Pkg.Path(), x.module) {
 			continue
 		}
 		var cands []*ssa.Function
-		for _, m := range pkg.Members {
+		for _, m := range sortedMembers(pkg) {
 			if f, ok := m.(*ssa.Function); ok {
 				cands = append(cands, f)
 				cands = append(cands, f.AnonFuncs...)
